@@ -128,6 +128,7 @@ impl Op {
 }
 
 pub struct StepOut {
+    pub op: Option<Op>,
     pub pre: Snap,
     pub post: Snap,
     pub tx: Tx,
@@ -161,8 +162,23 @@ pub fn run(b: &mut Built, op: &Op, pfx: &str, env: Envelope) -> StepOut {
     let wpre = b.chain.w.clone();
     let now = b.chain.now();
     let mut inputs: Vec<(String, T)> = vec![];
+    let fixed = b.fixed_inputs;
     let mut input = |name: &str, cap27: bool| -> Uint128 {
         let full = format!("{pfx}{name}");
+        if fixed {
+            let c: u128 = match name {
+                "amt" => 1_000_000,
+                "uns" => 300_000,
+                "rew" => 50_000,
+                "rcv" => 290_000,
+                "fw" => 10,
+                "don" => 77,
+                "exp" => 1,
+                _ => 1_000,
+            };
+            inputs.push((full, c.to_string()));
+            return Uint128::new(c);
+        }
         let v = var(&full);
         if env == Envelope::C16 && cap27 {
             symcore::assume(t::le(&t::ut(v), t::E27));
@@ -420,7 +436,7 @@ pub fn run(b: &mut Built, op: &Op, pfx: &str, env: Envelope) -> StepOut {
             b.ghost.wcount.entry(*id).or_insert(0);
         }
     }
-    StepOut { pre, post, tx, gpre, wpre, inputs, now }
+    StepOut { op: Some(op.clone()), pre, post, tx, gpre, wpre, inputs, now }
 }
 
 // ---------------------------------------------------------------------------------------------
@@ -552,8 +568,26 @@ pub struct Ctx<'a> {
     pub miniwasm: bool,
 }
 
+/// The callback concerns a transfer that was sent through a channel that is no longer the configured one and the
+/// contract ignored it (its record did not change although the chain delivered / refunded the transfer).
+pub fn channel_orphan(b: &Built, op: &Op, s: &StepOut) -> bool {
+    if let Op::Ibc { seq, .. } = op {
+        if let Some(p) = b.chain.w.packets.iter().find(|p| p.seq == *seq) {
+            let unchanged = s.pre.packets.get(seq).map(|x| (&x.1, &x.3)) == s.post.packets.get(seq).map(|x| (&x.1, &x.3)) && s.pre.packets.contains_key(seq);
+            return p.channel != s.pre.cfg.protocol_chain_config.ibc_channel_id && unchanged;
+        }
+    }
+    false
+}
+
 /// Invariant after the step (proved) + frame conditions common to all operations.
 pub fn post_inv(cx: &Ctx, b: &Built, s: &StepOut) {
+    if let Some(op) = s.op.as_ref() {
+        if channel_orphan(b, op, s) {
+            // reported once by `post_op` under its own label; the ledger invariants necessarily fail after it
+            return;
+        }
+    }
     if !s.tx.is_ok() {
         // rolled back: storage must be byte-identical (the world model restores it; this checks the
         // handlers themselves for the callbacks that are not wrapped by `tx`)
@@ -1036,6 +1070,10 @@ pub fn post_op(cx: &Ctx, b: &Built, op: &Op, s: &StepOut) {
                     prove(f, &format!("C11:admin can withdraw any amount up to the accrued fees [{}]", short(e)), t::gt(&x, &pre.fees));
                 }
             }
+        }
+        Op::Ibc { seq, .. } if channel_orphan(b, op, s) => {
+            let _ = seq;
+            claim(f, "C07:callbacks of transfers sent before a channel change are still honoured", false);
         }
         Op::Ibc { seq, outcome } => {
             claim(f, "C07:ibc callback for a tracked packet is accepted", s.tx.is_ok());
